@@ -7,6 +7,10 @@
      o_target   getTargetCongestionWindow(congestionWindowGain)      (gain * float64(bdp) ...)
      o_mode / o_atFull  mode and isAtFullBandwidth after the float-dependent state machine part
      o_maxAckHeight, o_excess, o_bytesAcked, o_bytesLost, o_totalAcked  sampler outputs
+     the pacingRate field (bits/s) and PacingRate()'s float fallback while that field is 0
+   What is NOT an oracle: the unit conversion and the floor of bandwidthForPacer (bits/s -> bytes/s by
+   BytesPerSecond = 8, float64 round trip included, then the minBps floor), and the branch structure of
+   calculateCongestionWindow with each clamp where the code has it.
    int64 additions/subtractions that can wrap are written with wrap64; uint64 with u64.
    Panic sites: 10 SetMaxDatagramSize with a smaller size; 11 integer division by zero in
    scaleByteWindowForDatagramSize. *)
@@ -37,12 +41,14 @@ Record wstate := mkW {
   inflight : Z        (* bytesInFlight *)
 }.
 
-(* NewBbrSender(clock, initialMaxDatagramSize, profile) *)
-Definition new_sender (m : Z) : wstate :=
-  let icw := c12_initialCongestionWindowPackets * m in
-  let mcw := c12_MaxCongestionWindowPackets * m in
+(* newBbrSender(clock, initialMaxDatagramSize, initialCongestionWindow, initialMaxCongestionWindow, profile) *)
+Definition new_sender_with (m icw mcw : Z) : wstate :=
   mkW m (c12_minCongestionWindowPackets * m) mcw icw icw mcw icw mcw
       c12_modeStartup c12_recNotInRecovery false invalidPacketNumber invalidPacketNumber invalidPacketNumber 0 0.
+
+(* NewBbrSender(clock, initialMaxDatagramSize, profile) *)
+Definition new_sender (m : Z) : wstate :=
+  new_sender_with m (c12_initialCongestionWindowPackets * m) (c12_MaxCongestionWindowPackets * m).
 
 (* scaleByteWindowForDatagramSize *)
 Definition scale_window (w old new : Z) : Res Z :=
@@ -75,8 +81,29 @@ Definition get_cwnd (st : wstate) : Z :=
   else cwnd st.
 Definition can_send (st : wstate) (bytesInFlight : Z) : bool := bytesInFlight <? get_cwnd st.
 
-(* bandwidthForPacer: bps is congestion.ByteCount(float64(PacingRate())/float64(BytesPerSecond)) *)
-Definition bandwidth_for_pacer (bps : Z) : Z := if bps <? c12_minBps then c12_minBps else bps.
+(* PacingRate(): the pacingRate field (Bandwidth = uint64 BITS per second); while it is still 0 the
+   float expression highGain * BandwidthFromDelta(initialCongestionWindow, minRtt) (oracle `fallback`) *)
+Definition pacing_rate (pacingRateField fallback : Z) : Z :=
+  if pacingRateField =? 0 then fallback else pacingRateField.
+
+(* float64(x) for a uint64 x: exact below 2^53, otherwise rounded to a 53-bit significand, ties to even *)
+Definition f64_of_u64 (x : Z) : Z :=
+  if x <? 9007199254740992 then x else
+  let e := Z.log2 x - 52 in
+  let q := x / 2 ^ e in
+  let r := x mod 2 ^ e in
+  let half := 2 ^ (e - 1) in
+  let q1 := if r <? half then q else if half <? r then q + 1 else if Z.even q then q else q + 1 in
+  q1 * 2 ^ e.
+
+(* bandwidthForPacer, units explicit.  `rate` is PacingRate() in BITS per second;
+     bps := congestion.ByteCount(float64(rate) / float64(BytesPerSecond))        (BytesPerSecond = 8 bits/s)
+   is BYTES per second: the float division by 8 is exact (power of two) and the conversion to int64
+   truncates (the quotient is below 2^61); the floor test `bps < minBps` is on the bytes/s value. *)
+Definition pacer_bps (rate : Z) : Z := f64_of_u64 (u64 rate) / c12_BytesPerSecond.
+Definition bandwidth_for_pacer (rate : Z) : Z :=
+  let bps := pacer_bps rate in
+  if bps <? c12_minBps then c12_minBps else bps.
 
 (* OnPacketSent: the integer fields it writes *)
 Definition on_sent (st : wstate) (pn bytesInFlight : Z) : wstate :=
@@ -121,16 +148,31 @@ Definition update_recovery (st : wstate) (lastAcked : Z) (hasLosses isRoundStart
                then (if negb hasLosses && (era <? lastAcked) then c12_recNotInRecovery else rs1) else rs1 in
     set_rec st rs2 era (recWin st) (curRoundEnd st).
 
-(* calculateCongestionWindow *)
+(* calculateCongestionWindow, in the code's own order.
+   1. targetWindow: getTargetCongestionWindow(congestionWindowGain) (oracle `target`, only floored at the
+      minimum by the code, never capped) plus MaxAckHeight once at full bandwidth / plus excessAcked in
+      STARTUP for the profiles with ack aggregation enabled there *)
+Definition cc_target_window (st : wstate) (enableAckAggStartup : bool) (target maxAckHeight excessAcked : Z) : Z :=
+  if atFullBw st then wrap64 (target + maxAckHeight)
+  else if enableAckAggStartup then wrap64 (target + excessAcked)
+  else target.
+
+(* 2. the growth step: `if isAtFullBandwidth { cwnd = min(targetWindow, cwnd+bytesAcked) }
+      else if cwnd < targetWindow || TotalBytesAcked < initialCongestionWindow { cwnd += bytesAcked }`.
+      Neither branch looks at the maximum window: the full-bandwidth branch follows the uncapped target. *)
+Definition cc_grow (st : wstate) (tw bytesAcked totalAcked : Z) : Z :=
+  if atFullBw st then Z.min tw (wrap64 (cwnd st + bytesAcked))
+  else if (cwnd st <? tw) || (totalAcked <? initCW st) then wrap64 (cwnd st + bytesAcked)
+  else cwnd st.
+
+(* 3. the limits, after BOTH branches: `cwnd = max(cwnd, minCongestionWindow); cwnd = min(cwnd, maxCongestionWindow)` *)
+Definition cc_limits (st : wstate) (c : Z) : Z := Z.min (Z.max c (minCW st)) (maxCW st).
+
 Definition calc_cwnd (st : wstate) (enableAckAggStartup : bool)
            (target maxAckHeight excessAcked bytesAcked totalAcked : Z) : wstate :=
   if mode st =? c12_modeProbeRtt then st else
-  let tw := if atFullBw st then wrap64 (target + maxAckHeight)
-            else if enableAckAggStartup then wrap64 (target + excessAcked) else target in
-  let c1 := if atFullBw st then Z.min tw (wrap64 (cwnd st + bytesAcked))
-            else if (cwnd st <? tw) || (totalAcked <? initCW st) then wrap64 (cwnd st + bytesAcked)
-            else cwnd st in
-  set_cwnd st (Z.min (Z.max c1 (minCW st)) (maxCW st)).
+  let tw := cc_target_window st enableAckAggStartup target maxAckHeight excessAcked in
+  set_cwnd st (cc_limits st (cc_grow st tw bytesAcked totalAcked)).
 
 (* calculateRecoveryWindow *)
 Definition calc_recovery (st : wstate) (bytesAcked bytesLost : Z) : wstate :=
